@@ -115,8 +115,14 @@ impl Rec {
     }
 }
 
-/// Called by `EbpfVmMbuff::execute_program` before the interpreter runs.
+/// Called before a program runs: by `EbpfVmMbuff::execute_program` (engine "interp": the step and
+/// helper lines follow), and by the `execute_program_jit` / `execute_program_cranelift` methods
+/// (engines "jit" / "cl": only `begin` and `end`; `fixed` = the offsets of the fixed-metadata VM,
+/// whose buffer is recorded as it is BEFORE the compiled code stores the packet pointers in it).
+#[allow(clippy::too_many_arguments)]
 pub(crate) fn exec_begin(
+    engine: &str,
+    fixed: Option<(usize, usize)>,
     prog: Option<&[u8]>,
     mem: &[u8],
     mbuff: &[u8],
@@ -133,7 +139,14 @@ pub(crate) fn exec_begin(
         None => return,
     };
     let mut out = String::new();
-    out.push_str("{\"e\":\"begin\",\"prog\":");
+    let _ = write!(out, "{{\"e\":\"begin\",\"engine\":\"{engine}\",\"fixed\":");
+    match fixed {
+        Some((a, b)) => {
+            let _ = write!(out, "[{a},{b}]");
+        }
+        None => out.push_str("[]"),
+    }
+    out.push_str(",\"prog\":");
     push_bytes(&mut out, prog);
     out.push_str(",\"mem_base\":");
     push_word(&mut out, mem.as_ptr() as u64);
